@@ -2021,29 +2021,31 @@ def r88(ctx: Ctx) -> RuleReport:
             if not uses:
                 rep.violation(key, init.loc(n), f'`{norm(n)[:60]}` does not use the parameter `{attr}`: whatever the caller passes is ignored')
                 continue
-            from_param = cfg.entry in rd.get(nid, {}).get(attr, frozenset())
-            # ... and in particular when the caller did pass something (walk under `param is None` = False, `not param` = False)
+            def carried(prune: bool) -> bool:
+                """can the caller's value (possibly wrapped: x = x or [], x = dict(x)) travel from the entry to this store?"""
+                seen_, stack_ = set(), [cfg.entry]
+                while stack_:
+                    x_ = stack_.pop()
+                    if x_ in seen_:
+                        continue
+                    seen_.add(x_)
+                    if x_ == nid:
+                        return True
+                    node_ = cfg.nodes[x_]
+                    if x_ != cfg.entry and node_.kind in ('stmt', 'for') and node_.ast is not None and attr in assigned_names(node_.ast):
+                        rhs = getattr(node_.ast, 'value', None)
+                        if rhs is None or not any(isinstance(y, ast.Name) and y.id == attr for y in ast.walk(rhs)):
+                            continue                    # replaced by something that does not come from the parameter
+                    for m_, lab_ in cfg.succ[x_]:
+                        if prune and node_.kind == 'cond':
+                            src_ = norm(node_.ast)
+                            if src_ in given and (lab_ == 'T') != given[src_]:
+                                continue
+                        stack_.append(m_)
+                return False
             given = {f'{attr} is None': False, f'{attr} is not None': True, f'not {attr}': False, attr: True, f'{attr} == None': False}
-            seen_, stack_, kept = set(), [cfg.entry], False
-            while stack_ and from_param:
-                x_ = stack_.pop()
-                if x_ in seen_:
-                    continue
-                seen_.add(x_)
-                if x_ == nid:
-                    kept = True
-                    break
-                node_ = cfg.nodes[x_]
-                if x_ != cfg.entry and node_.kind in ('stmt', 'for') and node_.ast is not None and attr in assigned_names(node_.ast):
-                    continue
-                for m_, lab_ in cfg.succ[x_]:
-                    if node_.kind == 'cond':
-                        src_ = norm(node_.ast)
-                        if src_ in given and (lab_ == 'T') != given[src_]:
-                            continue
-                        if isinstance(node_.ast, ast.UnaryOp):
-                            pass
-                    stack_.append(m_)
+            from_param = carried(False)
+            kept = from_param and carried(True)
             if from_param and not kept:
                 rep.violation(key, init.loc(n), f'when the caller passes a `{attr}`, it is replaced before `{norm(n)[:40]}` (the parameter only survives when it is None / empty): '
                               f'the object is built with the default instead of what was asked for')
@@ -2112,6 +2114,14 @@ def r90(ctx: Ctx) -> RuleReport:
             t = ctx.types.type_of(fi, base)
             kinds = {a[0] for a in t}
             if not (kinds & {'Atom', 'Var', 'Const', 'str'} and kinds & {'Node', 'tuple'}):
+                continue
+            # only names that are visibly the target half of a branch: `role, target = branch`, `for role, target in branches`
+            is_target = False
+            for y in walk_local(fi.node):
+                tg = y.target if isinstance(y, (ast.For, ast.comprehension)) else (y.targets[0] if isinstance(y, ast.Assign) and len(y.targets) == 1 else None)
+                if isinstance(tg, ast.Tuple) and len(tg.elts) == 2 and isinstance(tg.elts[1], ast.Name) and tg.elts[1].id == base.id:
+                    is_target = True
+            if not is_target:
                 continue
             n += 1
             if cfg is None:
@@ -2229,11 +2239,31 @@ def r96(ctx: Ctx) -> RuleReport:
                 reach_.add(c.fq)
                 stack_.append(c)
     display_only &= reach_
+    # type aliases that admit None (penman.types: Constant = Union[str, float, int, None] ...)
+    nullable = set()
+    for m_ in ctx.repo.modules.values():
+        for nm_, val_ in m_.constants.items():
+            if isinstance(val_, ast.AST) and ('None' in norm(val_) or 'Optional' in norm(val_)) and ('Union' in norm(val_) or 'Optional' in norm(val_)):
+                nullable.add(nm_)
+    grew = True
+    while grew:
+        grew = False
+        for m_ in ctx.repo.modules.values():
+            for nm_, val_ in m_.constants.items():
+                if nm_ not in nullable and isinstance(val_, ast.AST) and isinstance(val_, (ast.Name, ast.Subscript)) \
+                        and any(isinstance(x, ast.Name) and x.id in nullable for x in ast.walk(val_)) and norm(val_).startswith(('Union', 'Optional')) or \
+                        (nm_ not in nullable and isinstance(val_, ast.Name) and val_.id in nullable):
+                    nullable.add(nm_)
+                    grew = True
     for fi in ctx.repo.all_functions():
         ann = fi.node.returns
         if ann is None:
             continue
         a = norm(ann)
+        if isinstance(ann, ast.Name) and ann.id in nullable:
+            continue
+        if isinstance(ann, ast.Subscript) and norm(ann.value) == 'Union' and any(isinstance(x, ast.Name) and x.id in nullable for x in ast.walk(ann.slice)):
+            continue
         if a in ('None', "'None'") or 'Optional' in a or 'None' in a or a.startswith('Iterator') or a.startswith('Generator') or a in ('Any', 'NoReturn', 'typing.Any'):
             continue
         if any(isinstance(n, (ast.Yield, ast.YieldFrom)) for n in walk_local(fi.node)):
@@ -2271,4 +2301,97 @@ def r96(ctx: Ctx) -> RuleReport:
             rep.violation(key, fi.loc(bad[0]), f'{bad[1]}: the caller, who is promised a {a[:40]}, receives None (printed as "None", iterated, or indexed further on)')
         else:
             rep.ok(key, fi.loc())
+    return rep
+
+
+# ---------------------------------------------------------------------------------------------
+@rule('R101', 'a role is only compared with roles, and a variable / constant only with variables / constants (E3 types of the two sides of ==, != and in)')
+def r101(ctx: Ctx) -> RuleReport:
+    rep = RuleReport('R101', r101.title, floor=20)
+    ROLE = {'Role'}
+    NODEISH = {'Var', 'Const', 'Atom'}
+    n_cmp = 0
+    for fi in ctx.repo.all_functions():
+        for x in walk_local(fi.node):
+            if not (isinstance(x, ast.Compare) and len(x.ops) == 1 and isinstance(x.ops[0], (ast.Eq, ast.NotEq))):
+                continue
+            def kinds(e):
+                okc, val = try_fold(e, {}, ctx.repo, fi.module)
+                if okc and isinstance(val, str) and (val.startswith(':') or val == '/') and len(val) > 1 or (okc and val == '/'):
+                    return {'Role'}                     # CONCEPT_ROLE, ':instance', '/' ...
+                if isinstance(e, ast.Attribute) and e.attr in ('top_role', 'concept_role'):
+                    return {'Role'}
+                return {a[0] for a in ctx.types.type_of(fi, e)} - {'none'}
+            lt, rt = kinds(x.left), kinds(x.comparators[0])
+            if not lt or not rt or 'any' in lt or 'any' in rt:
+                continue
+            n_cmp += 1
+            key = f'{fi.module.name}:{fi.qualname}: `{norm(x)[:50]}` compares like with like'
+            CONT = {'list', 'tuple', 'set', 'dict', 'Node', 'Branch', 'Triple', 'iter'}
+            TEXT = {'Var', 'Const', 'Atom', 'Role', 'str'}
+            if (lt <= CONT and rt <= TEXT) or (rt <= CONT and lt <= TEXT):
+                rep.violation(key, fi.loc(x), f'`{norm(x.left)}` is a {"/".join(sorted(lt))} and `{norm(x.comparators[0])}` a {"/".join(sorted(rt))}: a container is never equal to a string, '
+                              f'so the comparison has a fixed outcome - the wrong element (e.g. the branch list of a node instead of its variable) is being compared')
+            elif (lt <= ROLE and rt <= NODEISH) or (rt <= ROLE and lt <= NODEISH):
+                rep.violation(key, fi.loc(x), f'one side is a role ({norm(x.left) if lt <= ROLE else norm(x.comparators[0])}), the other a '
+                              f'{"/".join(sorted((rt if lt <= ROLE else lt)))} ({norm(x.comparators[0]) if lt <= ROLE else norm(x.left)}): a role always starts with ":" and a variable or constant '
+                              f'never does, so the comparison has a fixed outcome - the wrong slot of the triple is being looked at')
+            else:
+                rep.ok(key, fi.loc(x))
+    rep.analysed['typed_comparisons'] = n_cmp
+    return rep
+
+
+# ---------------------------------------------------------------------------------------------
+@rule('R100', 'relabelling looks a name up in the map only when it is known to be there, and takes the concept of a node from its "/" branch')
+def r100(ctx: Ctx) -> RuleReport:
+    from ..resolve import facts_ex
+    rep = RuleReport('R100', r100.title, floor=2)
+    mv = ctx.repo.func('penman.tree', '_map_vars')
+    mp = mv.positional[1] if len(mv.positional) > 1 else 'varmap'
+    node_vars = set()
+    for n in walk_local(mv.node):
+        if isinstance(n, ast.Assign) and isinstance(n.targets[0], ast.Tuple) and len(n.targets[0].elts) == 2 and norm(n.value) == mv.positional[0]:
+            node_vars.add(norm(n.targets[0].elts[0]))
+    for x in walk_local(mv.node):
+        if isinstance(x, ast.Subscript) and isinstance(x.ctx, ast.Load) and norm(x.value) == mp:
+            k = norm(x.slice)
+            key = f'{mv.fq}: `{norm(x)}` is evaluated only for a name that is in the map'
+            if k in node_vars:
+                rep.ok(key, mv.loc(x), 'the variable of the node itself (every node variable is mapped: R52)')
+                continue
+            fx = facts_ex(ctx, mv, x)
+            if (f'{k} in {mp}', True) in fx or (f'{k} not in {mp}', False) in fx:
+                rep.ok(key, mv.loc(x), f'guarded by `{k} in {mp}`')
+            else:
+                rep.violation(key, mv.loc(x), f'`{k}` is the text of any atomic branch target - a constant, a string, a number - and only variables are keys of `{mp}`: '
+                              f'KeyError for the first constant, although constants must be left as they are')
+    rv = ctx.repo.func('penman.tree', 'Tree.reset_variables')
+    gens = [n for n in walk_local(rv.node) if isinstance(n, (ast.GeneratorExp, ast.ListComp)) and len(n.generators) == 1 and isinstance(n.generators[0].target, ast.Tuple)
+            and len(n.generators[0].target.elts) == 2 and norm(n.elt) == norm(n.generators[0].target.elts[1])]
+    key = f'{rv.fq}: the concept that names a node is the target of its "/" branch'
+    if not gens:
+        # loop form: for role, tgt in branches: if role == '/': concept = tgt; break
+        loopform = False
+        for lp in [n for n in walk_local(rv.node) if isinstance(n, ast.For) and isinstance(n.target, ast.Tuple) and len(n.target.elts) == 2]:
+            r_ = norm(lp.target.elts[0])
+            t_ = norm(lp.target.elts[1])
+            for a_ in ast.walk(lp):
+                if isinstance(a_, ast.Assign) and norm(a_.value) == t_:
+                    fx_ = {(f.replace(' ', ''), pol) for f, pol in facts_ex(ctx, rv, a_)}
+                    if (f"{r_}=='/'", True) in fx_ or (f'{r_}==CONCEPT_ROLE', True) in fx_:
+                        loopform = True
+                        rep.ok(key, rv.loc(a_), 'loop form')
+        if not loopform:
+            rep.undecided(key, rv.loc(), 'no `(target for role, target in branches if role == "/")`')
+    for g in gens:
+        r_ = norm(g.generators[0].target.elts[0])
+        conds = [c for c in g.generators[0].ifs if not (isinstance(c, ast.Constant) and c.value is True)]
+        srcs = {norm(c).replace(' ', '') for c in conds}
+        if srcs & {f"{r_}=='/'", f"'/'=={r_}", f'{r_}==CONCEPT_ROLE'}:
+            rep.ok(key, rv.loc(g))
+        elif not conds:
+            rep.violation(key, rv.loc(g), 'the target of the FIRST branch is taken whatever its role: for a node without a concept, e.g. (b :ARG0 c), the prefix comes from "c" instead of being "_"')
+        else:
+            rep.undecided(key, rv.loc(g), sorted(srcs)[0][:50])
     return rep
